@@ -75,6 +75,15 @@ C05_SiblingHolds(q, z, bouts, souts) ==
     \/ \E n \in 1..Len(bouts) :
           /\ Len(souts) = n /\ C05_SiblingExcused(q, bouts, souts, n)
           /\ \A j \in 1..(n-1) : C05_SiblingStageOk(q, z, bouts[j], souts[j])
+    \* the mapping that holds the sibling is replaced by a LIST at stage n: a protected sibling then keeps the older mapping
+    \* alive under the newer list (protected mapping entries under a newer list are outside C04's domain as well) - whatever
+    \* comes from stage n on is not judged
+    \/ \E n \in 2..Len(bouts) :
+          /\ q # <<>> /\ ~IsErr(bouts[n]) /\ ~IsErr(bouts[n-1])
+          /\ C05_PHas(DataOf(bouts[n-1]), q[1]) /\ C05_PGet(DataOf(bouts[n-1]), q[1]).k = "dict"
+          /\ C05_PHas(DataOf(bouts[n]), q[1]) /\ C05_PGet(DataOf(bouts[n]), q[1]).k = "list"
+          /\ Len(souts) >= n - 1
+          /\ \A j \in 1..(n-1) : C05_SiblingStageOk(q, z, bouts[j], souts[j])
 
 C05_L7 == SD("scalar", Atom("i", "7"), <<>>)
 C05_Siblings == {C05_L7, WithTag(C05_L7, "force"),
